@@ -342,6 +342,62 @@ func (m *vMachine) lockHeld() bool {
 	return *(*uint32)(unsafe.Pointer(&bitmapAllocator.mutex)) != 0
 }
 
+// markedFrames projects the bitmaps: the frames the main allocator holds as reserved
+func vMarkedFrames() [][4]int {
+	out := [][4]int{}
+	for _, p := range bitmapAllocator.pools {
+		for f := p.startFrame; f <= p.endFrame && p.endFrame != mm.InvalidFrame; f++ {
+			rel := f - p.startFrame
+			blk := rel >> 6
+			if int(blk) >= len(p.freeBitmap) {
+				break
+			}
+			if p.freeBitmap[blk]&(1<<(63-(rel-blk<<6))) != 0 {
+				out = append(out, vW64(uint64(f)))
+			}
+		}
+	}
+	return out
+}
+
+// runHandover: k boot allocations, then the REAL hand-over steps of BitmapAllocator.init
+func (m *vMachine) runHandover(regs []vRegion, ks, ke uint64, k int) {
+	m.setMap(regs)
+	bootMemAllocator.init(uintptr(ks), uintptr(ke))
+	boot := [][4]int{}
+	for i := 0; i < k; i++ {
+		f, err := bootMemAllocator.AllocFrame()
+		if err != nil {
+			break
+		}
+		boot = append(boot, vW64(uint64(f)))
+	}
+	e := vEv{"k": "handover"}
+	e["res"] = func() (s string) {
+		defer func() {
+			if r := recover(); r != nil {
+				s = "panic"
+			}
+		}()
+		if err := bitmapAllocator.setupPoolBitmaps(); err != nil {
+			return "oom"
+		}
+		bitmapAllocator.reserveKernelFrames()
+		bitmapAllocator.reserveEarlyAllocatorFrames()
+		return "ok"
+	}()
+	for _, f := range m.early { // frames setupPoolBitmaps took from the boot allocator for its own tables
+		boot = append(boot, vW64(uint64(f)))
+	}
+	e["boot"] = boot
+	if e["res"] == "ok" {
+		e["marked"] = vMarkedFrames()
+	} else {
+		e["marked"] = [][4]int{}
+	}
+	m.emit(e)
+}
+
 func (m *vMachine) runBoot(regs []vRegion, ks, ke uint64, extra int) {
 	m.setMap(regs)
 	m.emit(vEv{"k": "binit", "regs": vRegsJSON(regs), "ks": vW64(ks), "ke": vW64(ke)})
@@ -381,6 +437,12 @@ func (m *vMachine) runBoot(regs []vRegion, ks, ke uint64, extra int) {
 	for i := 0; i < n; i++ {
 		if balloc() != "ok" {
 			break
+		}
+	}
+	// the real hand-over after 0, a few, or many boot allocations
+	for _, k := range []int{0, 1 + extra, n / 2, n - 1} {
+		if k >= 0 && k <= n && k <= 300 {
+			m.runHandover(regs, ks, ke, k)
 		}
 	}
 	m.emit(vEv{"k": "reset"})
